@@ -169,7 +169,9 @@ def cases(run, rng):
     AQ = [Q.AliasedQuery("c"), Q.AliasedQuery("c").as_("x"), Q.Cte("c", P.Query.from_("t").select("a")), Q.AliasedQuery("d"), Q.AliasedQuery("d", P.Query.from_("t").select("a")),
           # the same name around different things: an aliased sub-query, a table, another class's query
           Q.Cte("c", P.Query.from_("t").select("a").as_("x")), Q.AliasedQuery("c", P.Table("t")), Q.Cte("c", PostgreSQLQuery.from_("u").select("b").as_("y")),
-          Q.AliasedQuery("d", P.Table("t", alias="ta"))]
+          Q.AliasedQuery("d", P.Table("t", alias="ta")),
+          # re-aliased so that name and alias differ, against a query whose NAME is that alias
+          Q.AliasedQuery("b").as_("a"), Q.AliasedQuery("a"), Q.AliasedQuery("a").as_("b"), Q.Cte("b", P.Query.from_("t").select("a")).as_("c")]
     t1, t2 = P.Table("t"), P.Table("u")
     QB = [P.Query.from_(t1).select("a"), P.Query.from_(t2).select("b"), P.Query.from_(t1).select("a").as_("x"), PostgreSQLQuery.from_(t2).select("b").as_("x"),
           P.Query.from_(t1).select("a").as_("y")]
@@ -204,7 +206,10 @@ def cases(run, rng):
                     pass
             # same-named columns of different tables, in both operand orders
             fa, fb, fc = T.Field("a", table=t), T.Field("a", table=u), T.Field("a", table=v)
-            exprs += [("in-container-field", fa.isin(fb)), ("in-container-function", fc.isin(fn.Coalesce(fb, fa))), ("notin-container-arith", fa.notin(fb + fc)),
+            from pypika_tortoise import analytics as an_
+            exprs += [("window-filter", an_.Sum(fa).filter(fc == fb).over(fb).orderby(fa)), ("window-filter-only-there", an_.Count(T.Star()).filter(fc > 1).over(fb)),
+                      ("aggregate-filter", fn.Sum(fa).filter(fc == fb)), ("window-in-arith", an_.Max(fa).filter(fb.isnull()).over(fc) + fb),
+                      ("in-container-field", fa.isin(fb)), ("in-container-function", fc.isin(fn.Coalesce(fb, fa))), ("notin-container-arith", fa.notin(fb + fc)),
                       ("in-container-under-not", ~(fa.isin(T.Function("unnest", fc)) & (fb == 1))),
                       ("same-name:t-u", fa == fb), ("same-name:u-t", fb == fa), ("same-name:sum", fa + fb + fc), ("same-name:between", fa.between(fb, fc)),
                       ("same-name:in", fc.isin([fb, fa])), ("same-name:case", P.Case().when(fa == 1, fb).else_(fc)), ("same-name:func", fn.Coalesce(fb, fc, fa))]
